@@ -49,7 +49,7 @@ def _space(tier):
         full = A.sigma_param(types=CORE_TYPES) + A.sigma_param(docs=[d for d in A.DOCS if d[0] in ("plain", "long", "nodoc")], types=[t for t in A.TYPES if t not in CORE_TYPES])
         # I(1) x {no return, plain return, long return} (thorough: all five return kinds)
         yield from A.ir_space(full, small, 3, returns_1=A.RETURNS[:2] + A.RETURNS[4:], returns_n=A.RETURNS[:1])
-        yield from A.ir_space([], small, 2, returns_n=A.RETURNS[1:2], alt_names=())  # pairs also with a return entry
+        yield from A.ir_space([], small, 2, returns_n=A.RETURNS[1:2], alt_names=(), wide=False)  # pairs also with a return entry
     else:
         yield from A.ir_space(full, small, 3, returns_n=A.RETURNS[:3])
         plain = A.sigma_param(docs=A.DOCS_BASIC)
